@@ -199,6 +199,10 @@ func (x *Exec) doBinOp(fr *Frame, in *ssa.BinOp, reach *Term) *Sym {
 				}
 			}
 			r = eqSym(a, b)
+			// `p == &T{...}`: an object whose only use is this comparison is distinct from every other value
+			if privateAlloc(in.X, in) != privateAlloc(in.Y, in) {
+				r = tFalse
+			}
 		}
 		if in.Op == token.NEQ {
 			r = mkNot(r)
@@ -372,6 +376,38 @@ func (x *Exec) doMakeInterface(fr *Frame, in *ssa.MakeInterface, reach *Term, st
 		}
 		return scalar(in.Type(), x.vc.name("boxed", app(SInt, tb, v.L[0])))
 	}
+}
+
+// privateAlloc: v is a heap allocation that is referred to only by its own initialising stores
+// (through field addresses) and by the comparison cmp - no other code can hold this pointer.
+func privateAlloc(v ssa.Value, cmp ssa.Instruction) bool {
+	a, ok := v.(*ssa.Alloc)
+	if !ok || !a.Heap || a.Referrers() == nil {
+		return false
+	}
+	for _, r := range *a.Referrers() {
+		if r == cmp {
+			continue
+		}
+		switch r := r.(type) {
+		case *ssa.FieldAddr:
+			// initialisation of a field: the field address may only be stored into
+			for _, rr := range *r.Referrers() {
+				st, isStore := rr.(*ssa.Store)
+				if !isStore || st.Addr != ssa.Value(r) {
+					return false
+				}
+			}
+		case *ssa.Store:
+			if r.Addr != ssa.Value(a) {
+				return false // the pointer itself is stored somewhere
+			}
+		case *ssa.DebugRef:
+		default:
+			return false
+		}
+	}
+	return true
 }
 
 // typedNil: the interface value holding a nil pointer of type t (a negative address of its own).
